@@ -46,7 +46,19 @@ def from_tree_ops(ops, rnd, d):
             sc.append({"c": "set_meta", "m": [rnd.randrange(256) for _ in range(rnd.choice([0, 1, 9]))]})
         if rnd.random() < 0.04:
             sc.append({"c": "flush"})
+        if rnd.random() < 0.05:
+            sc.append({"c": "set_tree", "d": d})             # re-initialisation in the middle of a history
     return sc
+
+
+def lifecycle(rnd):
+    """re-initialisation in every kind of state: empty tree with metadata, after writes, after a flush"""
+    m = [rnd.randrange(256) for _ in range(4)]
+    return [{"c": "reset", "d": 20}, {"c": "set_meta", "m": m}, {"c": "get_meta"}, {"c": "set_tree", "d": 20}, {"c": "get_meta"}, {"c": "get_root"},
+            {"c": "set", "i": 3, "v": 9}, {"c": "set_meta", "m": m + [1]}, {"c": "set_tree", "d": 20}, {"c": "get_meta"}, {"c": "leaves_set"},
+            {"c": "append", "v": 4}, {"c": "flush"}, {"c": "set_tree", "d": 20}, {"c": "get_leaf", "i": 0}, {"c": "get_meta"},
+            {"c": "reset", "d": 3}, {"c": "set_tree", "d": 3}, {"c": "set_meta", "m": m}, {"c": "set_tree", "d": 3}, {"c": "get_meta"},
+            {"c": "init", "vs": [1, 2]}, {"c": "get_meta"}]
 
 
 def stateless_calls(rnd):
@@ -111,6 +123,7 @@ def run_c11(tier, out):
     for op in big:
         op.pop("probe", None)
     sc += from_tree_ops(big, rnd, 20)
+    sc += lifecycle(rnd)
     sc += [{"c": "reset", "d": 20}] + stateless_calls(rnd)
     for op in malformed(rnd):
         sc += [{"c": "reset", "d": 20}, {"c": "set", "i": 1, "v": 4}, op, {"c": "get_root"}]     # (an API panic ends a history: one each)
